@@ -88,6 +88,18 @@ constexpr nterm<int> root("root"); constexpr nterm<Big> stars("stars");
         root(stars) >= [](const Big& b){ return b.v; }, \
         stars('*') >= [](skip){ return Big(1); }, \
         stars(stars, '*') >= [](const Big& b, skip){ return Big(b.v + 1); })''')
+# the helper functors inside constant evaluation: val, create, construct, _e1.._e3, and a rule without functor
+GRAMMARS['helpers'] = dict(alphabet=['1', '2', '+', '(', ')', ' '], code=r'''
+struct Wrapped { int v; constexpr Wrapped() : v(0) {} constexpr Wrapped(int x) : v(x) {} constexpr operator int() const { return v; } };
+constexpr nterm<int> expr("expr"); constexpr nterm<Wrapped> atom("atom"); constexpr nterm<int> zero("zero"); constexpr nterm<Wrapped> unit("unit");
+#define PARSER_ARGS expr, terms('1', '2', '+', '(', ')'), nterms(expr, atom, zero, unit), rules( \
+        expr(atom) >= construct<int, 1>{}, \
+        expr(expr, '+', atom) >= [](int a, skip, const Wrapped& b){ return a + b.v; }, \
+        atom('1') >= val(Wrapped(1)), atom('2') >= val(Wrapped(2)), \
+        atom('(', expr, ')') >= _e2, \
+        atom('(', zero, unit, ')') >= _e3, \
+        zero() >= create<int>{}, \
+        unit(zero) >= construct<Wrapped, 1>{})''')
 GRAMMARS['stars-long'] = dict(GRAMMARS['stars'], long=_long_stars())
 GRAMMARS['recovery-long'] = dict(GRAMMARS['recovery'], long=_long_recovery())
 GRAMMARS['expr-long'] = dict(GRAMMARS['expr'], long=_long_expr())
